@@ -86,6 +86,9 @@ pub struct Inner {
     /// maximum bytes handed out by a single stream per path
     pub pulled_max_single: BTreeMap<String, u64>,
     pub max_requests: Option<usize>,
+    /// requests below /metadata/ so far; without an explicit cap, METADATA_REQUEST_CAP of them end the
+    /// transport's patience (a client that never stops asking must end in an error, not hang the check)
+    pub meta_requests: usize,
     pub cap_hit: bool,
     pub observer: Option<Observer>,
     /// chunk size used by endless streams
@@ -99,6 +102,8 @@ pub struct Inner {
     /// (requested path, label) of every fallback answer
     pub fallback_served: Vec<(String, String)>,
 }
+
+pub const METADATA_REQUEST_CAP: usize = 20_000;
 
 #[derive(Clone)]
 pub struct MemTransport {
@@ -314,7 +319,11 @@ impl Transport for MemTransport {
         };
         let mut g = self.inner.lock().unwrap();
         let seq = g.log.len();
-        if let Some(cap) = g.max_requests {
+        if full.starts_with("/metadata/") {
+            g.meta_requests += 1;
+        }
+        let over_default = g.max_requests.is_none() && g.meta_requests > METADATA_REQUEST_CAP;
+        if let Some(cap) = g.max_requests.or(over_default.then_some(0)) {
             if seq >= cap {
                 g.cap_hit = true;
                 g.log.push(Req {
